@@ -1161,7 +1161,7 @@ Definition b_panic_if (cond : W) (r : preason) (m : meta) : cst -> res (unit * c
 Definition b_mux_panic (c : W) (T F : pstate) : cst -> res (pstate * cst) :=
   fun s => let* (P, b') := mux_panic (cb s) c T F in Ok (P, mkCst b' (cp s)).
 
-Definition bops : ops W cst pstate := {|
+Definition bops : ops N cst pstate := {|
   w0 := 0;
   w1 := 1;
   o_xor := fun x y => liftb (fun b => push_xor_top b x y);
